@@ -25,7 +25,7 @@
 From Coq Require Import List Arith Bool.
 Import ListNotations.
 From ZI Require Import Lib.Util.
-From ZI Require Export Model.Decl.
+From ZI Require Export Model.Decl Model.DeclLazy.
 
 (* NM l: implementedBy(a custom metaclass), which names the interfaces l directly *)
 Inductive node := NI (i : iface) | NC (c : cls) | NT | NM (l : list iface).
@@ -55,7 +55,8 @@ Inductive kgot := GNone | GImplements | GSpec (bases : list node).
 Inductive korigin := OClass (c : cls) | OProv (p : kprov).
 
 Record kcls := mkKC { kc_pybases : list cls; kc_declared : list node; kc_inherit : bool;
-                      kc_bases : list node; kc_provides : list node; kc_meta : option (list iface) }.
+                      kc_bases : list node; kc_provides : list node; kc_meta : option (list iface);
+                      kc_builtin : bool; kc_created : bool }.
 Record kinst := mkKI { ki_cls : cls; ki_live : bool; ki_provides : option (list node) }.
 Record kstate := mkK { kclasses : list kcls; kinsts : list kinst;
                        kcache : list (kkey * list node); kexc : option nat }.
@@ -68,7 +69,7 @@ Definition p_implementedBy (r : kclsref) : node :=
   match r with RClass c => NC c | RMeta l => NM l | _ => NT end.
 Definition embed_cls (r : crec) : kcls :=
   mkKC (c_bases r) (map NI (c_decl r)) (c_inherit r) (spec_bases r)
-       (map NI (c_cprov r) ++ [p_implementedBy (meta_ref (c_meta r))]) (c_meta r).
+       (map NI (c_cprov r) ++ [p_implementedBy (meta_ref (c_meta r))]) (c_meta r) (c_builtin r) true.
 Definition embed_inst (r : irec) : kinst :=
   mkKI (i_cls r) (i_live r) (option_map (fun k => map NI k ++ [NC (i_cls r)]) (i_prov r)).
 Definition embed_entry (e : ckey * list iface) : kkey * list node :=
@@ -76,6 +77,18 @@ Definition embed_entry (e : ckey * list iface) : kkey * list node :=
 Definition embed_exc (st : state) (x : option nat) : kstate :=
   mkK (map embed_cls (classes st)) (map embed_inst (insts st)) (map embed_entry (cache st)) x.
 Definition embed (st : state) : kstate := embed_exc st None.
+
+(* ---- embedding of the lazy states of Model/DeclLazy.v: a class without specification has no
+   Implements fields and no __provides__; a built-in type never gets a __provides__ *)
+Definition zembed_cls (p : crec * bool) : kcls :=
+  let r := fst p in
+  if snd p then
+    if c_builtin r then mkKC (c_bases r) (map NI (c_decl r)) (c_inherit r) (spec_bases r) [] (c_meta r) true true
+    else embed_cls r
+  else mkKC (c_bases r) [] false [] [] (c_meta r) (c_builtin r) false.
+Definition zembed (z : zstate) (x : option nat) : kstate :=
+  mkK (map zembed_cls (combine (classes (fst z)) (snd z))) (map embed_inst (insts (fst z)))
+      (map embed_entry (cache (fst z))) x.
 
 (* ---- pure helpers *)
 Definition p_normalizeargs (l : list node) : list node := l.
@@ -109,9 +122,9 @@ Definition kset (s : kstate) (spec : node) (f : kcls -> kcls) : kstate :=
 Definition p_declared (s : kstate) (spec : node) : list node :=
   match kget s spec with Some r => kc_declared r | None => [] end.
 Definition p_set_declared (s : kstate) (spec : node) (l : list node) : kstate :=
-  kset s spec (fun r => mkKC (kc_pybases r) l (kc_inherit r) (kc_bases r) (kc_provides r) (kc_meta r)).
+  kset s spec (fun r => mkKC (kc_pybases r) l (kc_inherit r) (kc_bases r) (kc_provides r) (kc_meta r) (kc_builtin r) (kc_created r)).
 Definition p_set_inherit_none (s : kstate) (spec : node) : kstate :=
-  kset s spec (fun r => mkKC (kc_pybases r) (kc_declared r) false (kc_bases r) (kc_provides r) (kc_meta r)).
+  kset s spec (fun r => mkKC (kc_pybases r) (kc_declared r) false (kc_bases r) (kc_provides r) (kc_meta r) (kc_builtin r) (kc_created r)).
 Definition p_inherit_is_set (s : kstate) (spec : node) : bool :=
   match kget s spec with Some r => kc_inherit r | None => false end.
 Definition p_inherit_pybases (s : kstate) (spec : node) : list kclsref :=
@@ -193,7 +206,7 @@ Definition p_set_bases (chg : igraph -> kstate -> kprov -> korigin -> kstate)
       match nth_error (kclasses s) c with
       | None => s
       | Some r =>
-          let s1 := mkK (upd (kclasses s) c (mkKC (kc_pybases r) (kc_declared r) (kc_inherit r) bases (kc_provides r) (kc_meta r)))
+          let s1 := mkK (upd (kclasses s) c (mkKC (kc_pybases r) (kc_declared r) (kc_inherit r) bases (kc_provides r) (kc_meta r) (kc_builtin r) (kc_created r)))
                         (kinsts s) (kcache s) (kexc s) in
           fold_left (fun acc e =>
                        match fst (fst e) with
@@ -238,7 +251,7 @@ Definition p_set_provides (s : kstate) (ob : target) (v : kprov) : kstate :=
                                (kcache s) (kexc s)
                | None => s
                end
-  | TCls c => kset s (NC c) (fun r => mkKC (kc_pybases r) (kc_declared r) (kc_inherit r) (kc_bases r) (snd v) (kc_meta r))
+  | TCls c => kset s (NC c) (fun r => mkKC (kc_pybases r) (kc_declared r) (kc_inherit r) (kc_bases r) (snd v) (kc_meta r) (kc_builtin r) (kc_created r))
   end.
 (* ``getattr(object, '__provides__', None)``: an instance without its own __provides__ gets the
    class's ClassProvides descriptor, which answers with the Implements of the class *)
@@ -294,10 +307,65 @@ Definition dpb_raw (st : state) (t : target) : list iface :=
   | TCls c => match nth_error (classes st) c with Some r => c_cprov r | None => [] end
   end.
 
-(* the object exists (and, for an instance, has not been dropped) *)
+(* the object exists (and, for an instance, has not been dropped) and can take attributes (it is
+   not a built-in type or an instance of one: for those ``object.__provides__ = ...`` raises,
+   which is hand-modelled in Model/Decl.v [exc_code]) *)
 Definition target_live (st : state) (t : target) : Prop :=
   match t with
-  | TInst o => exists r, nth_error (insts st) o = Some r /\ i_live r = true
-  | TCls _ => True
+  | TInst o => exists r, nth_error (insts st) o = Some r /\ i_live r = true /\ class_builtin st (i_cls r) = false
+  | TCls c => class_builtin st c = false
   end.
 
+(* ---- implementedBy (the translated function reads and creates specifications through these) *)
+Inductive kdv := DNone | DSpec (n : node) | DOld (l : list node).   (* what a dictionary lookup gives *)
+Definition kcget (s : kstate) (r : kclsref) : option kcls :=
+  match r with RClass c => nth_error (kclasses s) c | _ => None end.
+Definition kcset (s : kstate) (r : kclsref) (f : kcls -> kcls) : kstate :=
+  match r with RClass c => kset s (NC c) f | _ => s end.
+Definition p_isinstance_super (r : kclsref) : bool := false.
+Definition p_no_spec : node := NT.
+Definition p_implementedBy_super (s : kstate) (r : kclsref) : kstate * node := (s, p_no_spec).
+(* ``cls.__dict__.get('__implemented__')``: the stored Implements of a class that can take
+   attributes; ``type`` and the metaclasses have theirs *)
+Definition p_dict_get_implemented (s : kstate) (r : kclsref) : kdv :=
+  match r with
+  | RClass c => match nth_error (kclasses s) c with
+                | Some k => if kc_created k && negb (kc_builtin k) then DSpec (NC c) else DNone
+                | None => DNone
+                end
+  | RNone => DNone
+  | _ => DSpec (p_implementedBy r)
+  end.
+(* ``BuiltinImplementationSpecifications.get(cls)`` *)
+Definition p_table_get (s : kstate) (r : kclsref) : kdv :=
+  match kcget s r with
+  | Some k => if kc_created k && kc_builtin k then DSpec (p_implementedBy r) else DNone
+  | None => DNone
+  end.
+Definition p_dv_is_implements (d : kdv) : bool := match d with DSpec _ => true | _ => false end.
+Definition p_dv_is_none (d : kdv) : bool := match d with DNone => true | _ => false end.
+Definition p_dv_spec (d : kdv) : node := match d with DSpec n => n | _ => p_no_spec end.
+Definition p_dv_old (d : kdv) : list node := match d with DOld l => l | _ => [] end.
+Definition p_implements_name (r : kclsref) : kclsref := r.
+(* ``Implements.named(name, *bases)``: a new specification with declared = (), inherit = None
+   (the class attributes) and the given __bases__ (nothing depends on it yet: no notification) *)
+Definition p_implements_named (s : kstate) (name : kclsref) (bases : list node) : kstate * kdv :=
+  (kcset s name (fun k => mkKC (kc_pybases k) [] false bases (kc_provides k) (kc_meta k) (kc_builtin k) (kc_created k)),
+   DSpec (p_implementedBy name)).
+(* ``spec.inherit = cls`` *)
+Definition p_set_inherit_cls (s : kstate) (spec : node) (cls : kclsref) : kstate :=
+  kset s spec (fun k => mkKC (kc_pybases k) (kc_declared k) true (kc_bases k) (kc_provides k) (kc_meta k) (kc_builtin k) (kc_created k)).
+Definition p_set_implements_cls (s : kstate) (spec : node) (cls : kclsref) : kstate := s.
+Definition p_del_dict_implemented (s : kstate) (cls : kclsref) : kstate := s.
+Definition p_pybases (s : kstate) (r : kclsref) : list kclsref :=
+  match kcget s r with Some k => map RClass (kc_pybases k) | None => [] end.
+(* does ``cls.__implemented__ = spec`` succeed (TypeError for an immutable type) *)
+Definition p_can_setattr (s : kstate) (r : kclsref) : bool :=
+  match kcget s r with Some k => negb (kc_builtin k) | None => true end.
+Definition kmark_created (s : kstate) (r : kclsref) : kstate :=
+  kcset s r (fun k => mkKC (kc_pybases k) (kc_declared k) (kc_inherit k) (kc_bases k) (kc_provides k) (kc_meta k) (kc_builtin k) true).
+Definition p_store_dict (s : kstate) (r : kclsref) (spec : node) : kstate := kmark_created s r.
+Definition p_table_set (s : kstate) (r : kclsref) (spec : node) : kstate := kmark_created s r.
+Definition p_hasattr_providedBy (s : kstate) (r : kclsref) : bool := false.
+Definition p_install_osd (s : kstate) (r : kclsref) : kstate := s.
+Definition p_as_object (r : kclsref) : target := match r with RClass c => TCls c | _ => TCls 0 end.
